@@ -17,6 +17,79 @@ from rattr.models.util import serialise_irs
 from rattr.results import generate_results_from_ir
 
 
+def located_fns(file_ir):
+    """Per function (iteration order of the FileIr): the members of gets/sets/dels WITH their locations."""
+    from props import c14multi
+    return [{"name": sym.name, "file": str(sym.location.defined_in),
+             "locs": {k: c14multi.located_names_of(file_ir[sym][k]) for k in ("gets", "sets", "dels")}} for sym in file_ir]
+
+
+def twin_program(rng, i):
+    """Single-file programs in which DIFFERENT functions write IDENTICAL accesses (same parameter name, same attribute):
+    equal `Name`s (equality ignores the location) at different places, folded into callers that bind the parameter
+    to equal argument names. Callees read / write / delete, call one another (chains), callers call one or two."""
+    params = ["sensor", "node"]
+    attrs = ["value", "x", "state"]
+    n_callee = rng.randint(2, 4)
+    lines = []
+    callees = []
+    for c in range(n_callee):
+        p = rng.choice(params) if rng.random() < 0.3 else "sensor"
+        body = [f"# callee {c} of twin program {i}"] if rng.random() < 0.5 else []
+        for _ in range(rng.randint(1, 3)):
+            a = rng.choice(attrs)
+            body.append(rng.choice([f"{p}.{a}", f"{p}.{a} = 1", f"del {p}.{a}", f"print({p}.{a}.deep)"]))
+        if callees and rng.random() < 0.5:
+            body.append(f"{rng.choice(callees)}({p})")
+        callees.append(f"read{c}")
+        lines.append(f"def read{c}({p}):\n" + "\n".join("    " + b for b in body) + "\n")
+    for u in range(rng.randint(2, 3)):
+        q = rng.choice(["probe", "probe", "sensor"])
+        picks = rng.sample(callees, rng.randint(1, min(2, len(callees))))
+        body = [f"{c}({q})" for c in picks]
+        if rng.random() < 0.3:
+            body.insert(0, f"{q}.{rng.choice(attrs)}")
+        lines.append(f"def use{u}({q}):\n" + "\n".join("    " + b for b in body) + "\n")
+    if rng.random() < 0.5:
+        lines.reverse()
+    return "\n".join(lines)
+
+
+def located_request(snap, locs0, locids):
+    fns = []
+    for f, lf in zip(snap["fns"], locs0):
+        d = {"iface": f["iface"], "calls": f["calls"]}
+        for k in ("gets", "sets", "dels"):
+            d[k] = [[n, b, locids.setdefault((fl, ln, col), len(locids))] for n, b, fl, ln, col in lf["locs"][k]]
+        fns.append(d)
+    return {"fns": fns, "resolve": snap["resolve"], "order": snap["order"], "rounds": 2}
+
+
+def judge_located(res, case, snap, locs, lmo, locids):
+    if any(len({c["name"] for c in f["calls"]}) != len(f["calls"]) for f in snap["fns"]):
+        res.count("located:fold-order-depends-on-set-iteration (not compared)")
+        return
+    if not isinstance(lmo, dict) or "__error__" in lmo or lmo.get("outcome") != "ok":
+        res.disagreements.append({"case": case, "what": "located model", "model": lmo})
+        return
+    for r in (0, 1):
+        store = lmo["rounds"][r]["store"]
+        if len(store) != len(locs[r + 1]):
+            res.disagreements.append({"case": case, "round": r, "what": "located store: number of functions"})
+            return
+        for k, (ms, lf) in enumerate(zip(store, locs[r + 1])):
+            for kind in ("gets", "sets", "dels"):
+                M = {(n, b, l) for n, b, l in ms[kind]}
+                I = {(n, b, locids.get((fl, ln, col), -1)) for n, b, fl, ln, col in lf["locs"][kind]}
+                if len({(n, b) for n, b, _ in M}) != len(M):
+                    res.count("located:model-offers-two-locations-for-one-name (set comprehension order)")
+                if {(n, b) for n, b, _ in M} != {(n, b) for n, b, _ in I} or not I <= M:
+                    res.disagreements.append({"case": case, "round": r, "what": "LOCATED IR after generation", "function": lf["name"],
+                                              "set": kind, "impl": sorted(I), "model": sorted(M)})
+                    return
+    res.count("located:every-location-as-the-model-predicts")
+
+
 def ir_doc(file_ir):
     return serialise_irs(target_name="target.py", target_ir=file_ir, import_irs={})
 
@@ -32,14 +105,25 @@ def run(tier, seed, build):
                 "module; 6 import forms; follow level 0/1, --exclude-import); serialise_irs over ALL FileIrs + a deep structural "
                 "snapshot before / after one / after two generations, the CLI's `-o ir` on a sample; the Lean project model "
                 "resolves every call itself and must reproduce resolution, results and every set of every module. "
+                "Round 4: (a) LOCATED names — every member of every set is observed WITH its location (Name equality ignores it): the "
+                "Lean located engine (Provenance.generateL, op results_located) must predict the location of every member after each "
+                "generation (single-file stage, incl. `twin` programs: identical accesses written in different functions), and the "
+                "provenance oracle (props/c14prov.py; theorem C14_located_provenance) demands, in-process and on the CLI's `-o ir`, that "
+                "a member of a set of f is located where a function reachable from f through resolvable calls wrote such an access "
+                "(generated projects share un-tagged accesses across modules); (b) HISTORIES (props/c14hist.py): more analyses in the same "
+                "process after the generations (same target again, a second target over the same imports; Config re-created as "
+                "entry_point() does, no cache cleared) must hand result generation the IR a fresh analysis / a fresh interpreter "
+                "computes, library style and main() style. "
                 "non-trivial = distinct program with >= 1 resolvable call (multi-file: >= 1 call resolved across a module boundary)")
     rng = random.Random(seed)
     n = 300 if tier == "quick" else 4000
     programs = list(c03.CORPUS)
     for i in range(n):
         programs.append((f"rand{i}", rl.ProgGen(rng, clean=(i % 3 == 0)).build()[0]))
+    for i in range(40 if tier == "quick" else 400):
+        programs.append((f"twin{i}", twin_program(rng, i)))
     model = common.Model()
-    batch, metas = [], []
+    batch, metas, lbatch, locids = [], [], [], {}
     for label, src in programs:
         res.evaluations += 1
         out = impl.outcome_of(rl.analyse_source, src)
@@ -54,6 +138,7 @@ def run(tier, seed, build):
         # the real thing, on the real object (a private deep copy of it)
         work = rl.copy_file_ir(file_ir)
         before = ir_doc(work)
+        locs = [located_fns(work)]
         impl.Config().state.current_file = None
         # option combinations must not matter: a third of the programs run under a non-zero badness
         # threshold (simplification-time errors accumulate badness across generations)
@@ -63,14 +148,18 @@ def run(tier, seed, build):
         with impl.Tap():
             o1 = impl.outcome_of(generate_results_from_ir, target_ir=work, import_irs={})
         mid = ir_doc(work)
+        locs.append(located_fns(work))
         with impl.Tap():
             o2 = impl.outcome_of(generate_results_from_ir, target_ir=work, import_irs={})
         after = ir_doc(work)
+        locs.append(located_fns(work))
         im2 = rl.run_impl(file_ir, rounds=2)
         batch.append(("results", {**snap, "rounds": 2}))
-        metas.append((label, src, snap, before, mid, after, o1, o2, im2))
+        lbatch.append(("results_located", located_request(snap, locs[0], locids)))
+        metas.append((label, src, snap, before, mid, after, o1, o2, im2, locs))
     outs = model.batch(batch)
-    for (label, src, snap, before, mid, after, o1, o2, im2), mo in zip(metas, outs):
+    louts = model.batch(lbatch)
+    for (label, src, snap, before, mid, after, o1, o2, im2, locs), mo, lmo in zip(metas, outs, louts):
         case = {"label": label, "source": src}
         n_res = sum(1 for _, k in snap["resolve"] if isinstance(k, int))
         if n_res:
@@ -101,6 +190,27 @@ def run(tier, seed, build):
             res.violations.append({"signature": kind, "case": case})
         else:
             res.count("ir:unchanged" + ("" if n_res == 0 else "-despite-resolvable-calls"))
+        # correspondence of the LOCATED engine (RattrModel.Provenance.generateL): WHICH location every member of every set
+        # carries after each generation. Binding where the fold order is determined by the program text: no function
+        # with two call records of the same callee name (their order is the iteration order of a set).
+        if pinned:
+            judge_located(res, case, snap, locs, lmo, locids)
+        # provenance: a name folded into a function is located where a function it reaches wrote that access
+        from props import c14prov
+        rmap = {c: k for c, k in snap["resolve"]}
+        edges = [{rmap.get(c["cid"]) for c in f["calls"] if isinstance(rmap.get(c["cid"]), int)} for f in snap["fns"]]
+        for r in (1, 2):
+            if [f["name"] for f in locs[r]] != [f["name"] for f in locs[0]] or len(edges) != len(locs[0]):
+                break
+            pv = c14prov.provenance_violations(locs[0], locs[r], edges)
+            if not pv:
+                res.count(f"provenance-after-generation-{r}:every-name-located-where-a-reachable-function-wrote-it")
+                continue
+            for cls in sorted({v["class"] for v in pv}):
+                res.count(f"provenance-after-generation-{r}:{cls}")
+                res.violations.append({"signature": f"ir-mutated:other:folded-name-located-{cls}", "case": case,
+                                       "generation": r, "names": [v for v in pv if v["class"] == cls][:6]})
+            break
         r1 = {k: {a: sorted(b) for a, b in v.items()} for k, v in dict(o1[1]).items()}
         r2 = {k: {a: sorted(b) for a, b in v.items()} for k, v in dict(o2[1]).items()}
         if r1 != r2:
@@ -127,7 +237,13 @@ def run(tier, seed, build):
                        "derive_module_name_from_path are taken from the real code as data (C12, C13); the call target each Call symbol "
                        "carries is taken from the analysis (C06); the CLI's `-o ir` is compared with locations stripped (C18 finding: "
                        "the location a merged set member carries is hash-seed dependent)",
-                       "pipeline stage: see C03 (follow-imports 0; hash-order dependent modules skipped)"]
+                       "pipeline stage: see C03 (follow-imports 0; hash-order dependent modules skipped)",
+                       "[interp] 'describes each function's own body only' over histories: the IR an analysis hands to result generation is "
+                       "the IR a fresh process computes for that target (what an EARLIER generation folded into ITS IR objects must not show)",
+                       "[interp] the location a folded name carries is part of what the IR document says: it must be the place where a "
+                       "function the holder reaches wrote that access (which of several such places survives in a set is C18's finding)",
+                       "located correspondence: programs in which a function has two call records of the same callee name are not compared "
+                       "(their fold order is the iteration order of a set)"]
     return res
 
 
@@ -171,6 +287,24 @@ def replay(path):
     case = j.get("case", {})
     if "files" not in case:
         print(json.dumps(j, indent=1)[:4000])
+        if "source" in case and "folded-name-located" in str(j.get("signature")):
+            from props import c14prov
+            out = impl.outcome_of(rl.analyse_source, case["source"])
+            if out[0] != "ok":
+                return 2
+            snap = rl.snapshot(out[1])
+            work = rl.copy_file_ir(out[1])
+            locs = [located_fns(work)]
+            impl.Config().state.current_file = None
+            with impl.Tap():
+                impl.outcome_of(generate_results_from_ir, target_ir=work, import_irs={})
+            locs.append(located_fns(work))
+            rmap = {c: k for c, k in snap["resolve"]}
+            edges = [{rmap.get(c["cid"]) for c in f["calls"] if isinstance(rmap.get(c["cid"]), int)} for f in snap["fns"]]
+            pv = c14prov.provenance_violations(locs[0], locs[1], edges)
+            for v in pv[:8]:
+                print(f"{v['function']}.{v['kind']} holds {v['name']!r} located at {v['at']}: {v['class']}")
+            return 1 if pv else 0
         return 0
     import tempfile
     from pathlib import Path
@@ -192,4 +326,43 @@ def replay(path):
     if obs["outs"][0] != obs["outs"][1]:
         print("the two generations return different results")
         bad = True
+    # provenance of the folded names (reachability from the real resolution of every call)
+    from props import c14prov, c14hist
+    pre_flat, sizes = c14prov.flat_of_snapshot(obs["snaps"][0])
+    offs = [sum(sizes[:i]) for i in range(len(sizes))]
+    edges = [set() for _ in pre_flat]
+    for r in obs["resolution"]:
+        a = r["answer"]
+        if isinstance(a, list):
+            edges[offs[r["mod"]] + r["fn"]].add(offs[a[0]] + a[1])
+    for r in (0, 1):
+        post_flat, _ = c14prov.flat_of_snapshot(obs["snaps"][r + 1])
+        if [f["name"] for f in post_flat] != [f["name"] for f in pre_flat]:
+            break
+        pv = c14prov.provenance_violations(pre_flat, post_flat, edges)
+        for v in pv[:8]:
+            print(f"generation {r + 1}: {v['function']}.{v['kind']} holds {v['name']!r} located at {v['at']}: {v['class']}")
+        bad = bad or bool(pv)
+    rc, out, err = c14multi.run_cli(d, spec)
+    if rc == 0:
+        try:
+            post_flat = c14prov.flat_of_document(json.loads(out), obs["snaps"][0])
+            pv = c14prov.provenance_violations(pre_flat, post_flat, edges, root=str(d))
+            for v in pv[:8]:
+                print(f"-o ir: {v['function']}.{v['kind']} holds {v['name']!r} located at {v['at']}: {v['class']}")
+            bad = bad or bool(pv)
+        except (KeyError, TypeError, ValueError) as e:
+            print("-o ir: unreadable document", e)
+    # histories: more analyses in the same process (in-process, caches kept) and in fresh interpreters
+    tmp_res = common.Result(PID)
+    c14multi.judge_inprocess_history(tmp_res, {"label": case.get("label")}, obs)
+    if (d / "target_b.py").exists():
+        for style in ("library", "main"):
+            runs = {k: c14hist.history_run(d, spec, h, style) for k, h in c14hist.HISTORIES.items()}
+            c14hist.judge_history(tmp_res, {"label": case.get("label")}, style, runs)
+    for v in tmp_res.violations:
+        print("history", v.get("history"), "->", v["signature"])
+        bad = True
+    for e in tmp_res.internal_errors:
+        print("history driver:", e)
     return 1 if bad else 0
